@@ -85,7 +85,7 @@ func EncodeCMPPContentAndSplit(ctx context.Context, content string, msgFmt datac
 		return [][]byte{encodedData}, actualMsgFmt, nil
 	}
 
-	return splitWithUDHI(encodedData, perMsgLength, frameKey), actualMsgFmt, nil
+	return splitWithUDHI(encodedData, perMsgLength, frameKey, cutFuncFor(encoder.Name())), actualMsgFmt, nil
 }
 
 // DecodeCMPPCContent decodes CMPP content using the provided dataCoding.
@@ -153,7 +153,7 @@ func EncodeSMPPContentAndSplit(ctx context.Context, content string, msgFmt datac
 		return [][]byte{encodedData}, actualMsgFmt, nil
 	}
 
-	return splitWithUDHI(encodedData, perMsgLength, frameKey), actualMsgFmt, nil
+	return splitWithUDHI(encodedData, perMsgLength, frameKey, cutFuncFor(encoder.Name())), actualMsgFmt, nil
 }
 
 // DecodeSMPPCContent decodes SMPP content using the provided dataCoding.
@@ -254,13 +254,59 @@ func splitUnits(data []byte, perMsgLength int, cut cutFunc) [][]byte {
 	return chunks
 }
 
-// splitWithUDHI splits the long message according to perMsgLength and adds a 6-byte header for concatenated SMS.
-func splitWithUDHI(data []byte, perMsgLength int, frameKey byte) [][]byte {
-	total := len(data)
-	msgCount := ceil(total, perMsgLength)
+// cutBeforeLowSurrogate keeps a UTF-16 surrogate pair in one part: when the last
+// 16-bit unit of a part would be a high surrogate, the part ends one unit earlier.
+func cutBeforeLowSurrogate(data []byte, begin, end int) int {
+	if end-2 > begin && data[end-2] >= 0xD8 && data[end-2] <= 0xDB {
+		return end - 2
+	}
+	return end
+}
+
+// cutGB18030 ends a part on a GB18030 character boundary (characters take 1, 2 or 4 bytes).
+func cutGB18030(data []byte, begin, end int) int {
+	i := begin
+	for i < end {
+		width := 1
+		if data[i] >= 0x81 && i+1 < len(data) {
+			if data[i+1] >= 0x30 && data[i+1] <= 0x39 {
+				width = 4
+			} else {
+				width = 2
+			}
+		}
+		if i+width > end {
+			break
+		}
+		i += width
+	}
+	if i == begin {
+		return end
+	}
+	return i
+}
+
+// cutFuncFor returns the rule that keeps the multi-unit characters of a coding in one part.
+func cutFuncFor(name datacoding.DataCoding) cutFunc {
+	switch name {
+	case datacoding.DataCodingUcs2, datacoding.DataCodingUcs2NoSign:
+		return cutBeforeLowSurrogate
+	case datacoding.DataCodingGB18030:
+		return cutGB18030
+	case datacoding.DataCodingGSM7UnPacked:
+		return cutBeforeGSM7Escape
+	}
+	return nil
+}
+
+// splitWithUDHI splits the long message according to perMsgLength, never inside a character,
+// and adds a 6-byte header for concatenated SMS.
+func splitWithUDHI(data []byte, perMsgLength int, frameKey byte, cut cutFunc) [][]byte {
+	payloads := splitUnits(data, perMsgLength, cut)
+	msgCount := len(payloads)
 	contentBytes := make([][]byte, 0, msgCount)
-	for idx := 0; idx < msgCount; idx++ {
-		contentByte := make([]byte, 0, perMsgLength+datacoding.UDHILength)
+	for idx, payload := range payloads {
+		contentByte := make([]byte, 0, len(payload)+datacoding.UDHILength)
 
 		// append UDHI
 		contentByte = append(contentByte, longMsgHeader6ByteFrameKey)
@@ -270,16 +316,7 @@ func splitWithUDHI(data []byte, perMsgLength int, frameKey byte) [][]byte {
 		contentByte = append(contentByte, byte(msgCount)) // total
 		contentByte = append(contentByte, byte(idx+1))    // num
 
-		// split by perMsgLength
-		begin := idx * perMsgLength
-		end := (idx + 1) * perMsgLength
-		if end > total {
-			end = total
-		}
-		if begin == end {
-			continue
-		}
-		contentByte = append(contentByte, data[begin:end]...)
+		contentByte = append(contentByte, payload...)
 
 		contentBytes = append(contentBytes, contentByte)
 	}
